@@ -803,6 +803,9 @@ func (g *Gen) bindContracts(idx *outIndex) {
 			}
 		case "struct", "functype":
 			p := g.pkgByPath(ct.Pkg)
+			if strings.HasPrefix(ct.Key, "func(") {
+				continue
+			}
 			if p == nil || p.Scope().Lookup(ct.Key) == nil {
 				idx.Unbound = append(idx.Unbound, k)
 			}
